@@ -258,3 +258,28 @@ def handrolled_trapezoid(it, value_nf, roots):
                 return "ok", ynf, xroot
         return "bad", "panel is not 1/2 (y[j+1] + y[j]) * (x[j+1] - x[j]) with the signed difference: " + nf.show(gen, 200), None
     return "none", None, None
+
+
+def handwritten_quadrature(ctx, rule, it, value_nf, roots, construct, where, xname=None):
+    """For a result computed without a library quadrature call: recognise a hand-written cumulative trapezoid rule in
+    the value, check its roles and its zero start (the running sum is prefixed with a zero), and return the ordinate NF
+    (None after a reported violation).  Raises AnalysisError when no quadrature of either kind can be found."""
+    st, ynf, xroot = handrolled_trapezoid(it, value_nf, roots)
+    if st == "none":
+        raise AnalysisError(f"{construct}: neither a library quadrature call nor a hand-written trapezoid rule found")
+    if st == "bad":
+        ctx.bad(rule, construct, where, "the result is the cumulative trapezoid-rule integral of the ordinate over the independent variable", signature="hand-written quadrature: " + str(ynf)[:120])
+        return None
+    ctx.ok(rule, construct, where, "hand-written cumulative trapezoid: panels 1/2 (y[j+1] + y[j]) (x[j+1] - x[j]) over the independent variable", ordinate=nf.show(ynf, 300), abscissa=nf.show(xroot, 100))
+    # zero start: the cumulative sum appears as the tail of a concatenation whose head is a zero
+    zero_ok = False
+    for a in nf.atoms(value_nf):
+        if a[0] == "fn" and a[1].split("{")[0] in ("numpy.concatenate", "numpy.hstack", "numpy.append", "numpy.r_") and a[2]:
+            first = it.single_atom(nf.unkey(a[2][0]))
+            parts = first[2] if first is not None and first[0] == "fn" and first[1] == "tuple" else a[2]
+            if len(parts) == 2 and not nf.unkey(parts[0]) and any(x[0] == "fn" and x[1] in ("cumsum", "numpy.cumsum") for x in nf.atoms(nf.unkey(parts[1]))):
+                zero_ok = True
+        if a[0] == "fn" and a[1].split("{")[0] == "numpy.insert" and len(a[2]) >= 3 and not nf.unkey(a[2][1]) and not nf.unkey(a[2][2]):
+            zero_ok = True
+    ctx.check(zero_ok, rule, construct + ":initial", where, "the running integral is prefixed with a zero (result starts at zero and has the length of the grid)", signature="initial", value=nf.show(value_nf, 300))
+    return ynf
